@@ -51,6 +51,70 @@ func samePoint(x1, y1, x2, y2 *big.Int) bool { return x1.Cmp(x2) == 0 && y1.Cmp(
 func runC12(c0 *h.Ctx) {
 	cvs := curvesAll()
 	c0.Parallel(4*len(cvs), func(i int, c *h.Ctx) { runC12Curve(c, cvs[i%len(cvs)], i/len(cvs)) })
+	c12Wrappers(c0, cvs)
+}
+
+// c12Wrappers: the context-free entry points are the operations with the EMPTY context (nil and []byte{} alike), and a
+// curve the derivation does not support is refused with an error by every entry point.
+func c12Wrappers(c *h.Ctx, cvs []curveT) {
+	for _, cv := range cvs {
+		curve := cv.c
+		name := curve.Params().Name
+		sk, _ := ecdsa.GenerateKey(curve, crand.Reader)
+		bk, _ := ecdsa.GenerateKey(curve, crand.Reader)
+		digest := rnd(c, 32)
+		det := map[string]any{"curve": name, "blind_key": bk.D.String()}
+		p0, e0 := ecdsa.BlindPublicKey(curve, &sk.PublicKey, bk)
+		p1, e1 := ecdsa.BlindPublicKeyWithContext(curve, &sk.PublicKey, bk, nil)
+		p2, e2 := ecdsa.BlindPublicKeyWithContext(curve, &sk.PublicKey, bk, []byte{})
+		c.Count(name+":wrappers", 6, name)
+		if e0 != nil || e1 != nil || e2 != nil || !samePoint(p0.X, p0.Y, p1.X, p1.Y) || !samePoint(p0.X, p0.Y, p2.X, p2.Y) {
+			c.Violation("BlindPublicKey is BlindPublicKeyWithContext with the empty context (nil or empty slice)", det)
+			continue
+		}
+		m := c.Model("ecdsa_blind_exp", []byte{cv.id}, sk.D.Bytes(), bk.D.Bytes(), nil)
+		ex, ey := curve.ScalarBaseMult(m[1])
+		c.Case(name+":wrappers:factor", true, "ecdsa_blind_factor", [][]byte{{cv.id}, bk.D.Bytes(), nil}, [][]byte{m[0]})
+		if !samePoint(p0.X, p0.Y, ex, ey) {
+			c.Violation("the context-free blinded key is [d * hash_to_field(blind-key bytes || 0x00) mod N] G", det)
+		}
+		u0, e3 := ecdsa.UnblindPublicKey(curve, p0, bk)
+		u1, e4 := ecdsa.UnblindPublicKeyWithContext(curve, p0, bk, []byte{})
+		if e3 != nil || e4 != nil || !samePoint(u0.X, u0.Y, sk.X, sk.Y) || !samePoint(u1.X, u1.Y, sk.X, sk.Y) {
+			c.Violation("UnblindPublicKey inverts BlindPublicKey (and the empty-context form inverts it too)", det)
+		}
+		r, s, e5 := ecdsa.BlindKeySign(crand.Reader, sk, bk, digest)
+		if e5 != nil || !stdecdsa.Verify(&stdecdsa.PublicKey{Curve: curve, X: p2.X, Y: p2.Y}, digest, r, s) {
+			c.Violation("a BlindKeySign signature verifies (crypto/ecdsa) under the key blinded with the empty context", det)
+		}
+	}
+	// an unsupported curve: same parameters as P-256 under another name
+	params := *elliptic.P256().Params()
+	params.Name = "P-256-under-another-name"
+	other := elliptic.Curve(&params)
+	sk, _ := ecdsa.GenerateKey(other, crand.Reader)
+	bk, _ := ecdsa.GenerateKey(other, crand.Reader)
+	var errs []error
+	var outs []bool
+	pan, msg := h.Protect(func() {
+		p, e := ecdsa.BlindPublicKeyWithContext(other, &sk.PublicKey, bk, []byte("x"))
+		errs, outs = append(errs, e), append(outs, p == nil)
+		p, e = ecdsa.UnblindPublicKeyWithContext(other, &sk.PublicKey, bk, []byte("x"))
+		errs, outs = append(errs, e), append(outs, p == nil)
+		r, s, e := ecdsa.BlindKeySignWithContext(crand.Reader, sk, bk, rnd(c, 32), []byte("x"))
+		errs, outs = append(errs, e), append(outs, r == nil && s == nil)
+		p, e = ecdsa.BlindPublicKey(other, &sk.PublicKey, bk)
+		errs, outs = append(errs, e), append(outs, p == nil)
+	})
+	c.Count("unsupported-curve", 4, "")
+	if pan {
+		c.Violation("key blinding on an unsupported curve panics", map[string]any{"panic": msg})
+	}
+	for i := range errs {
+		if errs[i] == nil || !outs[i] {
+			c.Violation("key blinding on a curve the derivation does not support reports an error and returns no key / signature", map[string]any{"entry_point": i})
+		}
+	}
 }
 
 // runC12Curve: part p takes the secrets with index = p mod 4 of one curve.
